@@ -201,18 +201,19 @@ theorem foldl_fields {β} (items : List (Str × Str)) (f : β → PrjElem → β
   | cons x r ih => obtain ⟨k, v⟩ := x; simp [h, ih]
 
 /-- the project rule once its keyword - in whatever letter case - has been read -/
-theorem projectRule_from (c c0 c1 : Cur) (n : Str) (items : List (Str × Str)) (post : Str) (Q : Cur → Prop)
+theorem projectRule_from (c c0 c1 : Cur) (nm n : Str) (items : List (Str × Str)) (post : Str) (Q : Cur → Prop)
     (hb : cBefore c = .ok [] c0) (hkw : clit "project" c0 = .ok () c1)
-    (hr1 : c1.rest = ' ' :: '"' :: (n ++ '"' :: ' ' :: '{' :: '\n' :: (fieldLines items ++ '}' :: post))) (hp1 : c1.pastEnd = false)
-    (hn : NameOK n) (hk : ∀ kv ∈ items, PKeyOK kv.1) (hv : ∀ kv ∈ items, Plain kv.2 ∧ hasTriple kv.2 = false)
+    (hr1 : c1.rest = ' ' :: (nm ++ ' ' :: '{' :: '\n' :: (fieldLines items ++ '}' :: post))) (hp1 : c1.pastEnd = false)
+    (hn : Spells nm n) (hk : ∀ kv ∈ items, PKeyOK kv.1) (hv : ∀ kv ∈ items, Plain kv.2 ∧ hasTriple kv.2 = false)
     (hd : items.Pairwise (fun a b => a.1 ≠ b.1))
     (hend : ∀ c7 : Cur, c7.rest = post → c7.pastEnd = false → ∃ c9, (alt lineEnd stringEnd) c7 = .ok () c9 ∧ Q c9) :
     ∃ c9, projectRule c = .ok (projectBpOf n items) c9 ∧ Q c9 := by
-  have hN1' : Next c1 '"' (n ++ '"' :: (' ' :: '{' :: '\n' :: (fieldLines items ++ '}' :: post))) :=
-    skipWs_rest_spaces c1 1 '"' _ (by rw [hr1]; rfl) (by decide)
-  obtain ⟨q1, q2⟩ := quiet_of_next c1 '"' _ hN1' (by decide) (by decide)
+  obtain ⟨_, ⟨n0, nr, hn0, hn0w, hn0n, hn0s⟩, hname⟩ := hn
+  have hN1' : Next c1 n0 (nr ++ ' ' :: ('{' :: '\n' :: (fieldLines items ++ '}' :: post))) :=
+    skipWs_rest_spaces c1 1 n0 _ (by rw [hr1, hn0]; rfl) hn0w
+  obtain ⟨q1, q2⟩ := quiet_of_next c1 n0 _ hN1' hn0n hn0s
   have hs1 : skipNl c1 = .ok () c1 := skipNl_stay c1 q1 q2
-  obtain ⟨c2, hnm, hr2, hp2⟩ := name_quoted_ok c1 n _ hN1' hn hp1
+  obtain ⟨c2, hnm, hr2, hp2⟩ := hname c1 _ (by rw [hn0]; exact hN1') hp1
   have hN2 : Next c2 '{' ('\n' :: (fieldLines items ++ '}' :: post)) := skipWs_rest_spaces c2 1 '{' _ (by rw [hr2]; rfl) (by decide)
   obtain ⟨q3, q4⟩ := quiet_of_next c2 '{' _ hN2 (by decide) (by decide)
   have hs2 : skipNl c2 = .ok () c2 := skipNl_stay c2 q3 q4
@@ -253,7 +254,7 @@ theorem projectRule_okP (c c0 : Cur) (n : Str) (items : List (Str × Str)) (post
     rw [skipWs_rest_head c0 'P' _ (by rw [hc']; rfl) (by decide)]; rfl
   obtain ⟨c1, hkw, hr1, hp1⟩ := clit_ok "project" c0 ['P', 'r', 'o', 'j', 'e', 'c', 't'] _ hN (by decide)
     (by simp [startsWithCaseless] <;> decide) hp
-  exact projectRule_from c c0 c1 n items post Q hb hkw hr1 hp1 hn hk hv hd hend
+  exact projectRule_from c c0 c1 ('"' :: (n ++ ['"'])) n items post Q hb hkw (by rw [hr1]; simp) hp1 (spells_quoted n hn) hk hv hd hend
 
 /-! ### the element form -/
 
